@@ -557,8 +557,153 @@ def gen_write():
             f"Definition writer_prog_gen : list winstr := [{'; '.join(wp)}].\n"
             f"Definition io_prog_gen : list iinstr := [{'; '.join(ip)}].\n")
 
+# ---------------------------------------------------------------------------------------------------------------
+# C10 hand-over: Application.send_request (after routing) and Application.receive_answer as the two thread programs of
+# Model/Handoff.v.  Fail closed: any statement that is not recognised stops the translation.
+_HBH = "message.header.hop_by_hop_identifier"
 
-UNITS = {"GenIds.v": gen_ids, "GenGetters.v": gen_getters, "GenWrite.v": gen_write}
+
+def _is_waiting_table_sub(node):
+    return (isinstance(node, ast.Subscript) and _is_self_attr(node.value, "_answer_waiting")
+            and _dotted(node.slice) == _HBH)
+
+
+def _is_plain_log(st):
+    if isinstance(st, ast.Expr) and isinstance(st.value, ast.Call):
+        n = _dotted(st.value.func) or ""
+        return n.startswith("logger.") or n.startswith("self.logger.")
+    return False
+
+
+def _sender_program(fn, path):
+    body = _strip_doc(fn.body)
+    # everything up to and including `peer, _ = self.node.route_request(self, message)` is the routing (C10 node model)
+    start = None
+    for i, st in enumerate(body):
+        if isinstance(st, ast.Assign) and isinstance(st.value, ast.Call) and _dotted(st.value.func) == "self.node.route_request":
+            start = i + 1
+        elif start is None and any(isinstance(x, ast.Attribute) and x.attr in ("_answer_waiting", "send_message") for x in ast.walk(st)):
+            raise TranslationError(f"{path}:{st.lineno}: waiter table / send before route_request")
+    if start is None:
+        raise TranslationError(f"{path}:{fn.lineno}: route_request call not found in send_request")
+    prog, waiter = [], None
+    for st in body[start:]:
+        if isinstance(st, ast.Assign) and len(st.targets) == 1 and isinstance(st.targets[0], ast.Name) \
+                and isinstance(st.value, ast.Call) and _dotted(st.value.func) == "WaitingMessage" and not st.value.args:
+            waiter = st.targets[0].id
+        elif isinstance(st, ast.Assign) and len(st.targets) == 1 and _is_waiting_table_sub(st.targets[0]) \
+                and isinstance(st.value, ast.Name) and st.value.id == waiter:
+            prog.append("SReg")
+        elif isinstance(st, ast.Expr) and isinstance(st.value, ast.Call) and _dotted(st.value.func) == "self.node.send_message" \
+                and [_dotted(a) for a in st.value.args] == ["peer", "message"]:
+            prog.append("SSend")
+        elif isinstance(st, ast.Try):
+            waits = [x for x in ast.walk(ast.Module(st.body, [])) if isinstance(x, ast.Call)
+                     and _dotted(x.func) == f"{waiter}.event.wait"]
+            if len(waits) != 1 or [_dotted(a) for a in waits[0].args] != ["timeout"]:
+                raise TranslationError(f"{path}:{st.lineno}: expected exactly one {waiter}.event.wait(timeout) in the try body")
+            # shape of the body: `if wait(...) is not True: raise TimeoutError`, `if waiter.answer is None: raise EmptyAnswer`,
+            # `return waiter.answer`
+            b = st.body
+            ok = (len(b) == 3 and isinstance(b[0], ast.If) and isinstance(b[0].test, ast.Compare)
+                  and b[0].test.left is waits[0] and isinstance(b[0].test.ops[0], ast.IsNot)
+                  and isinstance(b[0].test.comparators[0], ast.Constant) and b[0].test.comparators[0].value is True
+                  and len(b[0].body) == 1 and isinstance(b[0].body[0], ast.Raise) and not b[0].orelse
+                  and isinstance(b[1], ast.If) and isinstance(b[1].test, ast.Compare) and _dotted(b[1].test.left) == f"{waiter}.answer"
+                  and isinstance(b[1].test.ops[0], ast.Is) and isinstance(b[1].test.comparators[0], ast.Constant)
+                  and b[1].test.comparators[0].value is None and len(b[1].body) == 1 and isinstance(b[1].body[0], ast.Raise)
+                  and isinstance(b[2], ast.Return) and _dotted(b[2].value) == f"{waiter}.answer")
+            if not ok:
+                raise TranslationError(f"{path}:{st.lineno}: the waiting block of send_request has an unknown shape")
+            for h in st.handlers:
+                if not (len(h.body) == 1 and isinstance(h.body[0], ast.Raise) and h.body[0].exc is None):
+                    raise TranslationError(f"{path}:{h.lineno}: handler of the waiting block does not re-raise")
+            prog.append("SWait")
+            fb = st.finalbody
+            if not (len(fb) == 1 and isinstance(fb[0], ast.Delete) and len(fb[0].targets) == 1 and _is_waiting_table_sub(fb[0].targets[0])):
+                raise TranslationError(f"{path}:{st.lineno}: finally block is not a single del of the waiter entry")
+            prog.append("SDel")
+        elif _is_plain_log(st):
+            continue
+        else:
+            raise TranslationError(f"{path}:{st.lineno}: unrecognised statement in send_request after routing")
+    return prog
+
+
+def _dispatcher_program(fn, path):
+    body = _strip_doc(fn.body)
+    prog, waiter, i = [], None, 0
+    while i < len(body) and _is_plain_log(body[i]):
+        i += 1
+    st = body[i] if i < len(body) else None
+    if isinstance(st, ast.Assign) and len(st.targets) == 1 and isinstance(st.targets[0], ast.Name) \
+            and isinstance(st.value, ast.Call) and isinstance(st.value.func, ast.Attribute) and st.value.func.attr == "get" \
+            and _is_self_attr(st.value.func.value, "_answer_waiting") and [_dotted(a) for a in st.value.args] == [_HBH] \
+            and not st.value.keywords:
+        waiter = st.targets[0].id
+        prog.append("DGet")
+        i += 1
+        st = body[i] if i < len(body) else None
+        ok = (isinstance(st, ast.If) and isinstance(st.test, ast.Compare) and _dotted(st.test.left) == waiter
+              and isinstance(st.test.ops[0], ast.IsNot) and isinstance(st.test.comparators[0], ast.Constant)
+              and st.test.comparators[0].value is None)
+        if not ok:
+            raise TranslationError(f"{path}:{fn.lineno}: expected `if {waiter} is not None` after the lookup")
+        then = st.body
+    elif isinstance(st, ast.If) and isinstance(st.test, ast.Compare) and _dotted(st.test.left) == _HBH \
+            and isinstance(st.test.ops[0], ast.In) and _is_self_attr(st.test.comparators[0], "_answer_waiting"):
+        prog.append("DTest")
+        first = st.body[0] if st.body else None
+        if not (isinstance(first, ast.Assign) and isinstance(first.targets[0], ast.Name) and _is_waiting_table_sub(first.value)):
+            raise TranslationError(f"{path}:{st.lineno}: expected the waiter to be indexed first after the membership test")
+        waiter = first.targets[0].id
+        prog.append("DIndex")
+        then = st.body[1:]
+    else:
+        raise TranslationError(f"{path}:{fn.lineno}: receive_answer does not start with a lookup of the waiter")
+    if i + 1 != len(body):
+        raise TranslationError(f"{path}:{fn.lineno}: statements after the if/else of receive_answer")
+    for b in then:
+        if isinstance(b, ast.Assign) and len(b.targets) == 1 and _dotted(b.targets[0]) == f"{waiter}.answer" \
+                and _dotted(b.value) == "message":
+            prog.append("DStore")
+        elif isinstance(b, ast.Expr) and isinstance(b.value, ast.Call) and _dotted(b.value.func) == f"{waiter}.event.set" \
+                and not b.value.args:
+            prog.append("DSet")
+        elif _is_plain_log(b):
+            continue
+        else:
+            raise TranslationError(f"{path}:{b.lineno}: unrecognised statement in the waiter branch of receive_answer")
+    for b in st.orelse:
+        if isinstance(b, ast.Expr) and isinstance(b.value, ast.Call) and _dotted(b.value.func) == "self.handle_answer" \
+                and [_dotted(a) for a in b.value.args] == ["message"]:
+            prog.append("DHandle")
+        elif _is_plain_log(b):
+            continue
+        else:
+            raise TranslationError(f"{path}:{b.lineno}: unrecognised statement in the else branch of receive_answer")
+    return prog
+
+
+def gen_handoff():
+    apath, atree = _parse("node/application.py")
+    ac = _find_class(atree, "Application", apath)
+    sp = _sender_program(_find_func(ac, "send_request", apath), apath)
+    dp = _dispatcher_program(_find_func(ac, "receive_answer", apath), apath)
+    # no subclass the library ships may replace the two methods
+    for n in atree.body:
+        if isinstance(n, ast.ClassDef) and n.name != "Application":
+            for f in n.body:
+                if isinstance(f, ast.FunctionDef) and f.name in ("send_request", "receive_answer"):
+                    raise TranslationError(f"{apath}:{f.lineno}: {n.name} overrides {f.name}")
+    return ("(* GENERATED by tools/translate.py from node/application.py (Application.send_request after routing,\n"
+            "   Application.receive_answer) -- do not edit *)\n"
+            "From DV Require Import Prelude.Base Model.Handoff.\n"
+            f"Definition sender_prog_gen : list sinstr := [{'; '.join(sp)}].\n"
+            f"Definition disp_prog_gen : list dinstr := [{'; '.join(dp)}].\n")
+
+
+UNITS = {"GenIds.v": gen_ids, "GenGetters.v": gen_getters, "GenWrite.v": gen_write, "GenHandoff.v": gen_handoff}
 
 
 def regenerate(outdir, units=None):
